@@ -404,7 +404,9 @@ def run_loop(ctx, r):
 	for rd in range(ctx.scale(6, 200)):
 		aw = sim.AppWorld(["-b", "127.0.0.1"], seed = r.getrandbits(30))
 		vs = vnet.VSelect(aw.net)
-		sim.fake_trx.select = vs
+		saved_select = vnet.attach_select(sim.fake_trx, vs)
+		if not saved_select:
+			raise common.HarnessError("cannot find fake_trx's use of select")
 		box = {}
 
 		def body():
@@ -467,7 +469,7 @@ def run_loop(ctx, r):
 			vs.request_stop()
 			th.join(5)
 			import select as real_select
-			sim.fake_trx.select = real_select
+			vnet.detach(sim.fake_trx, {k: (real_select if isinstance(v, vnet.VSelect) else v) for k, v in saved_select.items()})
 			aw.shutdown()
 
 
